@@ -12,6 +12,12 @@ CHECKS = {
   text="Round-trip, length and differential oracles over generated structured PDUs and byte strings; exhaustive for all strings <=3 bytes and all 2-byte headers x tail shapes; coverage-guided fuzzing with the oracle inside the target. Held-on-everything-explored, no absence proof.",
   note=TRUST + "Reference decoder vlib/ref_llcp.py is anchored on literal encodings from tests/test_llcp_pdu.py."),
 }
+CHECKS["C01"] = dict(
+  category="exploration",
+  technique="property-based testing (Hypothesis): generated tag layouts/configurations on memory-backed tag simulators under the real ContactlessFrontend; round-trip + independent capacity model + independent reference reader; bounded-exhaustive over all message lengths on small layouts",
+  text="Every generated layout (T1T static/dynamic, T2T incl. multi-sector, T3T, library-emulated T3T, T4T 4A/4B mapping 1.0-3.0) is written and read back through a fresh activation; reported capacity is compared with an independently computed true capacity and the raw memory image is decoded by an independent reader. Held on everything explored; the lengths leg is exhaustive for its layouts.",
+  note=TRUST + "Tag simulators vlib/simtags.py, vlib/isodep_card.py and the layout model vlib/ref_tlv.py are part of the trusted base. Known finding C01-t4t-v3-64k (mapping 3.0 files > 64 KiB) is excluded by signature and printed as KNOWN-FINDING.")
+
 PENDING_REASON = "not claimed yet: its generated-input check (DESIGN.md section 3) is still under construction in this session; nothing is asserted about it"
 
 def main():
